@@ -38,6 +38,8 @@ static const KnownDefect KNOWN_DEFECTS[] = {
     {"ucs4-surrogate-decoded", "XMLUCS4Transcoder::transcodeFrom passes UCS-4 values D800..DFFF through as UTF-16 units (two of them form an accepted pair)"},
     {"ucs4-swapped-supplementary-not-swapped", "XMLUCS4Transcoder::transcodeTo writes supplementary characters in native byte order when the target order is swapped"},
     {"table-fallback-mapping", "intrinsic Windows-1252/IBM037/IBM1047/IBM1140 encoders map U+FF01..U+FF5E (and other best-fit characters) to ASCII look-alikes instead of reporting them unrepresentable"},
+    {"table-cantranscodeto-truncates", "XML256TableTranscoder::canTranscodeTo(unsigned int) passes the code point to xlatOneTo(XMLCh): values > 0xFFFF are truncated to 16 bits, so e.g. U+10041 is reported representable"},
+    {"icu-default-ignorable-dropped", "ICUTranscoder::transcodeTo/canTranscodeTo: ICU's STOP/SUBSTITUTE callbacks skip unmappable default-ignorable code points (U+00AD, U+200B, ...), which are silently dropped instead of being reported"},
     {"table-nul-unrepresentable", "XML256TableTranscoder::xlatOneTo uses 0 as 'not found', so U+0000 is reported unrepresentable"},
     {"icu-cantranscodeto-supplementary", "ICUTranscoder::canTranscodeTo builds the surrogate pair without subtracting 0x10000 and so tests a different (or ill-formed) character"},
     {"icu-truncated-input-swallowed", "ICUTranscoder::transcodeFrom (flush=false) consumes a truncated trailing sequence into converter state; TranscodeFromStr and XMLReader then see a clean end of input"},
@@ -209,7 +211,14 @@ struct IcuRef {
         out.assign(dst, (size_t)len);
         return true;
     }
-    bool encode_cp(uint32_t cp, Bytes& out) { U16 u; append_scalar(u, cp); return encode(u.data(), u.size(), out); }
+    // a character is representable iff it has a round-trip mapping: ICU's STOP callback silently SKIPS unmappable default-ignorable
+    // code points (U+00AD, U+200B, U+E0000..) and returns success with no bytes, so success alone is not enough
+    bool encode_cp(uint32_t cp, Bytes& out) {
+        U16 u; append_scalar(u, cp);
+        if (!encode(u.data(), u.size(), out) || out.empty()) return false;
+        U16 back;
+        return decode((const uint8_t*)out.data(), out.size(), back) && back == u;
+    }
 };
 
 // ------------------------------------------------------------------------------------------------
